@@ -200,6 +200,10 @@ func C15_MainLoop() {
 		}
 	}
 	ctx := env.CancelWhenIdle()
+	if event == 0 && env.ParamOr("parked_sync", 0) == 1 {
+		// a late sync that the worker will drop as stale is still parked in the worker's one-slot channel
+		n.m.worker.workerUpdateStateChannel <- &blockWithProof{block: nil}
+	}
 	if event == 0 {
 		eh, ev := env.NondetU64("eh"), env.NondetU64("ev")
 		env.Assume(ev < math.MaxUint64)
